@@ -139,12 +139,15 @@ def _creator_info(tree):
             raise TranslateError(f"{fname}: expected exactly one create_generic(ex, bits, name, type) call")
         bits, ty = calls[0].args[1], calls[0].args[3]
         if fname in ("create_uint", "create_int"):
-            if not (isinstance(bits, ast.Name) and bits.id == "bits" and isinstance(ty, ast.JoinedStr)):
-                raise TranslateError(f"{fname}: expected create_generic(ex, bits, name, f'...')")
+            if not (isinstance(bits, ast.Name) and isinstance(ty, ast.JoinedStr)):
+                raise TranslateError(f"{fname}: expected create_generic(ex, <bits variable>, name, f'...')")
             prefix = "".join(v.value for v in ty.values if isinstance(v, ast.Constant))
-            bounds = [n for n in ast.walk(fn) if isinstance(n, ast.Compare) and isinstance(n.left, ast.Name) and n.left.id == "bits"]
-            if len(bounds) != 1 or not isinstance(bounds[0].ops[0], ast.Gt) or not isinstance(bounds[0].comparators[0], ast.Constant):
-                raise TranslateError(f"{fname}: expected a single `bits > <int>` guard")
+            fvals = [v.value for v in ty.values if isinstance(v, ast.FormattedValue)]
+            if len(fvals) != 1 or not (isinstance(fvals[0], ast.Name) and fvals[0].id == bits.id):
+                raise TranslateError(f"{fname}: expected the type name f'{prefix}{{{bits.id}}}'")
+            bounds = [n for n in ast.walk(fn) if isinstance(n, ast.Compare) and isinstance(n.left, ast.Name) and n.left.id == bits.id]
+            if len(bounds) != 1 or len(bounds[0].ops) != 1 or not isinstance(bounds[0].ops[0], ast.Gt) or not isinstance(bounds[0].comparators[0], ast.Constant):
+                raise TranslateError(f"{fname}: expected a single `{bits.id} > <int>` guard")
             info[fname] = ("var", prefix, bounds[0].comparators[0].value)
         else:
             if not (isinstance(bits, ast.Constant) and isinstance(bits.value, int) and isinstance(ty, ast.Constant) and isinstance(ty.value, str)):
